@@ -143,6 +143,18 @@ CLAIMED = {
             "Scripts are cyclic sequences (the callback's answer depends only on how many times it was called); the "
             "interactive debugger engine (keyboard) is not driven.",
             "§8 C18"),
+    "C09": ("AtomImpl.tla models the atom as Go's RWMutex (pending writers block new readers) + cell + version and every "
+            "operation as its sequence of critical sections; TLC checks no-lost-update, failed-swap-keeps-cell, deadlock "
+            "freedom and termination exhaustively on 5 scenarios (and shows the deadlocks of the previous lock-held "
+            "design); recorded executions of the real code (hooks at the linearization points under the lock) are "
+            "validated event by event by TraceAtom.tla; hangs judged structurally; race detector run",
+            "Exhaustive model checking within 3 threads / 2 atoms / scripts of <= 2 operations; trace validation of 324 "
+            "(quick) / 4k (thorough) real concurrent scenarios with up to 6 threads x 6 operations; binding self-test "
+            "(a corrupted trace must be rejected).",
+            "Real schedules are sampled (Gosched injected at the hooks), not enumerated; the race detector and "
+            "runtime.Stack wait reasons are trusted; update functions that update the atom being swapped are excluded "
+            "as in the property.",
+            "§8 C09"),
 }
 
 NOT_YET = "check not built yet in this round (planned in DESIGN.md §8; the specification module exists or is in progress)"
